@@ -288,6 +288,26 @@ def execute(sc):
                 if not same:
                     _viol(V, "data.refit", "%s: the acquisition function is evaluating a regressor fitted to other data than this optimiser's" % when)
                     return
+            # "the data the next model is fitted to": the hyper-parameter search limits the fit works within are estimated
+            # from the data; for the default (class-valued) kernel and mean they are a function of the current data alone
+            try:
+                cov2, mean2 = type(opt.gp.cov)(), type(opt.gp.mean)()
+                cov2.pass_spatial_data(np.array(opt.gp.x, dtype=float, copy=True))
+                mean2.pass_spatial_data(np.array(opt.gp.x, dtype=float, copy=True))
+                cov2.estimate_hyperpar_bounds(np.array(opt.gp.y, dtype=float, copy=True))
+                mean2.estimate_hyperpar_bounds(np.array(opt.gp.y, dtype=float, copy=True))
+                want = np.array(list(mean2.bounds) + list(cov2.bounds), dtype=float)
+                have = np.array(opt.gp.hp_bounds, dtype=float)
+            except Exception:  # noqa - another way of organising the fit: not interpretable here
+                want = have = None
+                stats["warn_uninterpretable_hyperpar_limits"] += 1
+            if want is not None:
+                stats["hyperpar_limits_checked"] += 1
+                if want.shape != have.shape or not np.allclose(want, have, rtol=1e-9, atol=1e-12, equal_nan=True):
+                    _viol(V, "data.refit", "%s: the model was fitted within hyper-parameter limits %r, but the limits estimated from "
+                          "the current %d data points are %r (limits left over from an earlier data set)"
+                          % (when, np.round(have, 6).tolist(), len(my), np.round(want, 6).tolist()))
+                    return
             if inc != max(my):
                 _viol(V, "incumbent", "%s: the acquisition function's incumbent maximum is %r, the largest observed value is %r" % (when, inc, max(my)))
 
